@@ -174,6 +174,22 @@ PROPS = {
         assumptions=["syn and rustc are the implementation of parsing and of discriminant assignment; the model covers the derive's decision logic, the generated conversions and Rust's discriminant rule"],
         not_yet_proved=[],
     ),
+    "C18": dict(
+        extra_modules=["CstModel.Proofs.DataSlot"],
+        runs=runs([("conc:data", "release")],
+                  [("conc:data", "release"), ("conc:data", "debug")]),
+        rule="cases = executions under the deterministic scheduler (a scheduling point before every data-lock and slot-lock acquisition and every counter RMW) of 6 fixed "
+             "+ 10 (thorough 60) random programs of 2-3 threads x 1-3 operations from {set, try_set, get, clear} (with navigation to a second node, so one or two "
+             "nodes, reached through different handles) -- all schedules with <= 1 (thorough 2) preemptions + 30 (thorough 200) random schedules; every stored "
+             "value is unique per (thread, operation) and counts its own drops; oracle per execution: results replayed in completion order against a sequential "
+             "optional slot, every payload dropped exactly once by the end, no payload dropped while a handle to it is still held; the same operations, in "
+             "completion order, are run through the Lean model (`DataSlot.runOp` = acquire/body/release steps of `DataSlot.step`) whose results and final "
+             "drop ledger must equal the implementation's; non-trivial = the scheduler had a real choice; distinct = distinct trace",
+        assumptions=["parking_lot::RwLock is a correct reader/writer lock and Arc a correct reference count (the model's lock admission rule and owner count are theirs)",
+                     "under the scheduler a critical section runs without a scheduling point inside it, so the correspondence exercises whole operations; that operations "
+                     "whose sections overlap in time (two readers) still linearize is the theorem's part (`linearizable` quantifies over all step interleavings)"],
+        not_yet_proved=[],
+    ),
     "C19": dict(
         runs=runs([("fmt", "release")], [("fmt", "release"), ("fmt", "debug"), ("fmt", "lasso")]),
         rule="cases = for every byte length 0..40 (thorough 0..60): 8 (thorough 12) texts built from 1-4 byte characters in different patterns + 4-byte runs shifted "
